@@ -199,6 +199,17 @@ def load_effective_values(h):
         h.fail('effective-values-are-defaults-file-kwargs-overlay', why)
     else:
         h.ensure('effective-values-are-defaults-file-kwargs-overlay', ok, note=why)
+    # ... on every load: a later load of the same (unchanged) file and defaults without those keyword arguments gets the
+    # file's and the defaults' values again - nothing of an earlier load's arguments may survive in anything that is reused
+    set_state(h, False)
+    seen.clear()
+    h.I.call(h.I.getattr(Config, 'load'), args, {})
+    want2 = spec_overlay(d, f if use_file else {}, {})
+    ok2, why2 = same_tree(h, want2, seen.get('data'))
+    if ok2 is False:
+        h.fail('a-later-load-does-not-see-an-earlier-loads-keyword-arguments', why2)
+    else:
+        h.ensure('a-later-load-does-not-see-an-earlier-loads-keyword-arguments', ok2, note=why2)
 
 
 def spec_overlay(d, f, k):
@@ -482,6 +493,17 @@ def replay_overlay(payload):
         except Exception as e:   # noqa
             obs['nox_method'] = f'load failed: {type(e).__name__}: {e}'
         want['nox_method'] = 'p3t3'
+        Config.reset()
+        # the same unchanged file loaded twice: the second load must not see the first load's keyword arguments
+        try:
+            Config.load(fn, data_path_overrides=[root + '/tests/data'], emissions=dict(sox_enabled=False, gse_enabled=False))
+            Config.reset()
+            c = Config.load(fn, data_path_overrides=[root + '/tests/data'])
+            obs['second_load_of_the_same_file'] = dict(sox_enabled=c.emissions.sox_enabled, gse_enabled=c.emissions.gse_enabled,
+                                                       nox_method=str(getattr(c.emissions.nox_method, 'value', c.emissions.nox_method)))
+        except Exception as e:   # noqa
+            obs['second_load_of_the_same_file'] = f'load failed: {type(e).__name__}: {e}'
+        want['second_load_of_the_same_file'] = dict(sox_enabled=True, gse_enabled=True, nox_method='none')
         return dict(reproduced=obs != want, observed=obs, required=want)
     finally:
         Config.reset()
